@@ -148,6 +148,13 @@ def monitorSync (c : SyCase) (obs : String) : String :=
     ("C01.creates", !reached || C01creates v acts),
     ("C03.justified", !reached || C03 v m.upd pods acts (o.out == "ok")),
     ("C04.vacant", !reached || !wf || C04 v pods acts),
+    ("C04.removed", (annotate c.plan o.log).all (fun (e, idx, _) =>
+        !(e.verb == "create" && e.res == "pod") ||
+        !(annotate c.plan o.log).any (fun (g, j, k) => g.verb == "delete" && g.res == "pod" && g.name == e.name && j < idx && k.isSome))),
+    -- the completion rule, judged on the status a whole sync wrote and on the calls of the real pod control
+    ("C12.completion", !reached || (match o.status with | some st => C12complete m.cur m.upd pods acts st | none => true)),
+    ("C02.cache", C10cache o),
+    ("C16.requeued", C09reported i c.plan o),
     ("C05.ordered", !reached || v.parallel || !wf || C05 v pods acts),
     ("C07.rolling", !reached || !wf || C07 v m.cur m.upd pods acts),
     ("C14.burst", !reached || !v.parallel || !wf || v.deleting || !c.plan.isEmpty || podFaulted || o.out != "ok" || C14 v pods acts),
